@@ -510,6 +510,9 @@ def run_schedule(cfg_a: Dict, cfg_b: Optional[Dict], schedule: List[Tuple], shie
                 if globals_fp is not None and own is not None:
                     own.append(json.dumps({**globals_fp(), "generators": rng_fp() if configured_seed(cfg_a) is not None else "-"}, sort_keys=True))
             elif op == "reset":
+                # identifiers are numbered per EPISODE (a reset builds a new game: every identifier is new anyway); a trajectory-wide
+                # numbering would carry a divergence of the previous episode (one more file created there) into every later record
+                canon = Canon()
                 traj += run_ops(envs["A"], [("reset", ent[2])], canon)
                 if globals_fp is not None and own is not None:
                     own.append(json.dumps({**globals_fp(), "generators": rng_fp() if (ent[2] is not None and ent[2] >= 0) else "-"}, sort_keys=True))
@@ -637,7 +640,9 @@ def per_step_same(solo: List[Dict[str, str]], inter: List[Dict[str, str]]) -> Li
 
 
 # ------------------------------------------------------------------------------------------------ model flags of a scenario
-RNG_AGENT_SAFE = {"proxy-agent", "probabilistic-agent"}
+# agents that draw nothing from a process-global generator in `step`: a probabilistic agent and (since /repo 903a159) a random agent own a
+# private generator whose seed is drawn from numpy's global one when the agent is BUILT (construct / reset: `draws_at_build`)
+RNG_AGENT_SAFE = {"proxy-agent", "probabilistic-agent", "random-agent"}
 RNG_APPS = {"data-manipulation-bot", "dos-bot"}
 
 
